@@ -123,6 +123,12 @@ class FileWeave:
             raise WeaveError("%s: `let %s` #%d of `%s` not found" % (self.rel, name, k, self.fn_qualname(fnnode)))
         return ls[k - 1]
 
+    def top_let(self, fnnode, name, k=1):
+        ls = [n for n in self.top_stmts(fnnode) if n["kind"] == "let" and name in n["names"]]
+        if len(ls) < k:
+            raise WeaveError("%s: top-level `let %s` #%d of `%s` not found" % (self.rel, name, k, self.fn_qualname(fnnode)))
+        return ls[k - 1]
+
     def stmt_of(self, n):
         """outermost statement-level node containing n whose parent is a block / fn (for let: itself)"""
         cur = n
